@@ -177,6 +177,12 @@ impl Validator for CliHelper {
 
 impl Helper for CliHelper {}
 
+/// Verification hook (only with `--cfg datafusion_verif`): public access to the statement splitter.
+#[cfg(datafusion_verif)]
+pub fn verif_split_from_semicolon(sql: &str) -> Vec<String> {
+    split_from_semicolon(sql)
+}
+
 /// Splits a string which consists of multiple queries.
 pub(crate) fn split_from_semicolon(sql: &str) -> Vec<String> {
     let mut commands = Vec::new();
